@@ -280,6 +280,27 @@ def catalogue(P, with_checkers=True):
         for w in list(fa.words_upto(RT[1], 2))[:4]:
             add('tm_accepts_word#%d/%s' % (i, w), ta.tm_accepts_word, B + [lambda w=w: w, lambda: 200], d_val)
             add('tm_simulate_word#%d/%s' % (i, w), ta.tm_simulate_word, B + [lambda w=w: w, lambda: 50], d_val)
+    # second-stage calls: the ARGUMENT is itself the result of a library function (objects shared between a result and
+    # its parts - e.g. one Alternative object in several rules after unit-rule elimination - only exist there)
+    for i, RG in enumerate(P['cfg'][:6]):
+        for (pre_name, pre) in (('cfg_eliminate_unit_rules', ca.cfg_eliminate_unit_rules), ('cfg_remove_epsilon_rules', ca.cfg_remove_epsilon_rules),
+                                ('cfg_apply_chomsky/3', lambda G: nc.cfg_apply_chomsky(G, 3, 'T'))):
+            B = [lambda RG=RG, pre=pre: pre(adapt.build_cfg(RG))]
+            for f in ('cfg_make_rules_of_length_two', 'cfg_eliminate_terminals', 'cfg_to_chomsky', 'cfg_eliminate_unit_rules', 'cfg_remove_epsilon_rules', 'cfg_add_new_start_variable'):
+                add('%s(after %s)#%d' % (f, pre_name, i), getattr(ca, f), B, d_cfg)
+            add('cfg_words_up_to_n(after %s)#%d' % (pre_name, i), ca.cfg_words_up_to_n, B + [lambda: 3], d_val)
+    for i, R in enumerate(P['dfa'][:5]):
+        for (pre_name, pre) in (('dfa_complement', da.dfa_complement), ('dfa_remove_unreachable_states', da.dfa_remove_unreachable_states), ('dfa_no_extend', da.dfa_no_extend)):
+            B = [lambda R=R, pre=pre: pre(adapt.build_dfa(R))]
+            for f in ('dfa_minimize', 'dfa_quotient', 'dfa_hopfcroft', 'dfa_complement', 'dfa_reverse', 'dfa_make_total', 'dfa_no_prefix'):
+                add('%s(after %s)#%d' % (f, pre_name, i), getattr(da, f), B, d_fa)
+        B = [lambda R=R: da.dfa_reverse(adapt.build_dfa(R))]
+        for (f, fn) in (('nfa_to_dfa', na.nfa_to_dfa), ('nfa_repetition', na.nfa_repetition)):
+            add('%s(after dfa_reverse)#%d' % (f, i), fn, B, d_fa)
+    for i, RP in enumerate(P['pda'][:4]):
+        B = [lambda RP=RP: pa.pda_to_push_pop(adapt.build_pda(RP, ''))]
+        add('pda_to_accept_on_empty_stack(after pda_to_push_pop)#%d' % i, pa.pda_to_accept_on_empty_stack, B, d_pda)
+        add('pda_to_cfg(after pda_to_push_pop)#%d' % i, pa.pda_to_cfg, B, d_cfg)
     # finite-language helpers and compare_languages
     L1, L2 = {'', 'a', 'ab', 'abb', 'ba'}, {'a', 'b', 'ab'}
     for f in ('union', 'intersection', 'symmetric_difference', 'concatenation'):
